@@ -721,6 +721,32 @@ func cellName(c ssa.Value) string {
 
 func (fx *FuncExec) backEdge(li *loopInfo, st *State) {
 	if fx.discard > 0 {
+		// discovery: the step clauses are evaluated for the heaps they mention only (a field that
+		// only a contract names, e.g. after a change to the code, must exist in the real pass)
+		if li.spec != nil {
+			oldSt := li.old
+			if oldSt == nil {
+				oldSt = st // only the heaps named matter here
+			}
+			envStep := fx.specEnv(st, oldSt)
+			envStep.loop = li
+			envStep.idxState = st
+			envStep.oldCells = oldSt
+			for _, sc := range li.spec.Steps {
+				func() {
+					defer func() {
+						if r := recover(); r != nil {
+							if tl, isTL := r.(toolLimitErr); !isTL {
+								panic(r)
+							} else if os.Getenv("VERIF_DEBUG") != "" {
+								fmt.Fprintln(os.Stderr, "discovery step clause:", tl.msg)
+							}
+						}
+					}()
+					fx.evalBool(envStep, sc)
+				}()
+			}
+		}
 		return
 	}
 	var pos token.Pos
